@@ -30,12 +30,13 @@ from .c09 import write_cfg
 GRAMMARS = {
     "g1": 'r = { ASCII_HEX_DIGIT+ ~ ("x" | "yy" | "zz") ~ (NEWLINE | ASCII_ALPHA_UPPER)? }\nWHITESPACE = _{ " " | "\\t" }\n',
     "g2": 'r = { x ~ PUSH("b" | ASCII_DIGIT) ~ (POP ~ ASCII_HEX_DIGIT | PEEK ~ "c") ~ h* ~ EOI }\nx = @{ (!("b" | "9" | "#") ~ ANY)* }\nh = @{ ASCII_HEX_DIGIT{2} }\nCOMMENT = _{ "#" }\n',
-    "g3": 'r = { s ~ ("," ~ s)* ~ !ANY }\ns = ${ #t = w | (ASCII_DIGIT | "_")+ }\nw = { ASCII_ALPHA+ }\n',
+    # sep has the same alternatives as g1's WHITESPACE (there fused into the repeated SKIP rule, here matched once)
+    "g3": 'r = { s ~ ("," ~ sep? ~ s)* ~ !ANY }\ns = ${ #t = w | (ASCII_DIGIT | "_")+ }\nw = { ASCII_ALPHA+ }\nsep = { " " | "\\t" }\n',
 }
 CASES = {
     "g1": {"ok": ("r", "a f 09 yy A", 0), "fail": ("r", "a f 09 yz", 0)},
     "g2": {"ok": ("r", "xx.x.bb9#1f#2e", 0), "fail": ("r", "xyz..99#1g", 0)},
-    "g3": {"ok": ("r", "..ab,12_,c", 2), "fail": ("r", "ab,12,,c", 0)},
+    "g3": {"ok": ("r", "..ab, 12_,\tc", 2), "fail": ("r", "ab,  12,c", 0)},
 }
 OPTS = {"none": "none", "default": None, "custom": ["squash_choice", "inline built-in"]}
 _RE_CONFLICT = re.compile(r'<<"CONFLICT", (\d+)>>')
